@@ -35,7 +35,11 @@ PRIVATE = {
     'p1': [(0, 0)] * 5 + [(1, 2)] * 3 + [(0, 1)] * 2,
     'p2': [(1, 0), (1, 1), (1, 2), (0, 2)],
     'p3': [(0, 1)] * 12,
+    'p4': [(0, 0)] * 120 + [(1, 2)] * 90 + [(0, 2)] * 60 + [(1, 0)] * 30,
 }
+# extra (private, sigma) regimes: near-exact measurements of large counts (residual/sigma^2 ~ 1e10: every trial step overshoots
+# until the step size is ~1e-10) and noise-dominated measurements of a tiny dataset (the linear total estimate is negative)
+EXTREME = [('p4', 1e-4), ('p4', 1e-5), ('p2', 60.0)]
 
 
 def bounds(tier):
@@ -134,12 +138,15 @@ def run_public(acc, pi, tier, seed, only=None):
     pub = publics()[pi]
     dom = Domain(ATTRS, SIZES)
     frame0 = np.array(pub, dtype=int).reshape(len(pub), 2)
-    privs = list(PRIVATE) if tier == 'thorough' else [list(PRIVATE)[pi % 3]]
-    for priv in privs:
+    privs = ['p1', 'p2', 'p3'] if tier == 'thorough' else [['p1', 'p2', 'p3'][pi % 3]]
+    combos = [(priv, struct, kind, sigma) for priv in privs for struct, kind, sigma in itertools.product(STRUCTS, ['identity', 'prefix'], [0.5, 2.0])
+              if not (tier == 'quick' and (kind == 'identity') != (sigma == 0.5))]
+    ex = EXTREME if tier == 'thorough' else [EXTREME[pi % 3]]
+    combos += [(priv, struct, 'identity' if list(STRUCTS).index(struct) % 2 == 0 else 'prefix', sigma) for (priv, sigma) in ex
+               for struct in (STRUCTS if tier == 'thorough' else [list(STRUCTS)[pi % 4], list(STRUCTS)[(pi + 1) % 4]])]
+    for priv, struct, kind, sigma in combos:
         N = float(len(PRIVATE[priv]))
-        for struct, kind, sigma in itertools.product(STRUCTS, ['identity', 'prefix'], [0.5, 2.0]):
-            if tier == 'quick' and (kind == 'identity') != (sigma == 0.5):
-                continue
+        if True:
             if only is not None and (only['priv'], only['struct'], only['kind'], only['sigma']) != (priv, struct, kind, sigma):
                 continue
             ms, dense = build_measurements(struct, kind, sigma, priv, seed)
